@@ -202,6 +202,18 @@ mut("term_fill_spare_with_le", L, """        while self.size < N {
             self.push_back(f());""", """        while self.size <= N {
             self.push_back(f());""", ["C11:TERM1"])
 mut("term_backfill_no_decrement", D, """            remaining -= copy_len;""", """            let _ = copy_len;""", ["C11:TERM1"])
+mut("backfill_from_iter_end", D, """        let mut backfill = items.add(self.range.end);""", """        let mut backfill = items.add(self.iter.end);""", ["C03:OWNER1", "C04:REINT1", "C09:BACKFILL2"])
+mut("backfill_hole_from_iter_start", D, """        let mut hole = items.add(self.range.start);""", """        let mut hole = items.add(self.iter.start);""", ["C03:OWNER1", "C09:BACKFILL2"])
+mut("backfill_restore_iter_len", D, """        buf.size = self.buf_size - self.range.len();""", """        buf.size = self.buf_size - self.iter.len();""", ["C09:BACKFILL2"])
+mut("remove_head_move_unguarded", L, """                // Move the values at the right of `index` by 1 position to the left
+                ptr::copy(ptr.add(index).add(1), ptr.add(index), N - index - 1);
+                // Move the leftmost value to the end of the array
+                ptr::copy(ptr, ptr.add(N - 1), 1);
+                // Move the values at the left of `back_index` by 1 position to the left
+                ptr::copy(ptr.add(1), ptr, back_index);""", """                let start = self.start;
+                ptr::copy(ptr.add(start), ptr.add(start).add(1), index - start);
+                self.start = add_mod(start, 1, N);""", ["C20:HEADMOVE1"])
+mut("over_range_size_end", D, """        buf.size = 0;""", """        buf.size = end;""", ["C04:REINT1", "C03:OWNER1", "C10:DRN1"])
 mut("view_back_off_by_one", L, """            let (back, front) = self.items.split_at(start);
             (front, &back[..end])""", """            let (back, front) = self.items.split_at(start);
             (front, &back[..end + 1])""", ["C07:VIEW2", "C04:VIEW2"])
